@@ -21,6 +21,7 @@ import (
 	"fmt"
 	"net/http"
 	"os"
+	"sort"
 	"strings"
 	"testing"
 
@@ -41,7 +42,36 @@ func vfC11GenReq(rt *rapid.T, mqtt, withResp bool) vfC11Req {
 		return vfC11Req{any: vfAnyReq{mqtt: &r}}
 	}
 	r := vfGenHTTPReq(rt, withResp)
+	vfC11Freeze(&r)
 	return vfC11Req{any: vfAnyReq{http: &r}}
+}
+
+// vfC11Freeze makes a request identical every time it is rebuilt into a context: C13's builder
+// signs "signed" requests with the current time; the signature headers are computed once here and
+// then carried as plain headers.
+func vfC11Freeze(r *vfHTTPReq) {
+	if r.Auth != "signed" && r.Auth != "signed-unknown-key" {
+		return
+	}
+	env := vfEnvVal
+	signed := r.Std(env).Header
+	plain := *r
+	plain.Auth = "none"
+	base := plain.Std(env).Header
+	keys := make([]string, 0, len(signed))
+	for k := range signed {
+		keys = append(keys, k)
+	}
+	sort.Strings(keys)
+	for _, k := range keys {
+		if _, ok := base[k]; ok {
+			continue
+		}
+		for _, v := range signed[k] {
+			r.Hdr = append(r.Hdr, [2]string{k, v})
+		}
+	}
+	r.Auth = "none"
 }
 
 // vfC11Handler is anything with a Handle method (filter or pipeline).
